@@ -1048,5 +1048,10 @@ pub fn gen_case_with(rng: &mut Rng, spec: SpecId, max_txs: usize, f: &Features) 
         nonce += 1;
         txs.push(t);
     }
-    Case { spec, world, block, txs }
+    let mut case = Case { spec, world, block, txs };
+    // one case in eight is a directed multi-step scenario (scenarios.rs) on top of the random world
+    if spec <= SpecId::PRAGUE && rng.chance(1, 8) {
+        crate::scenarios::apply(rng, &mut case);
+    }
+    case
 }
